@@ -68,6 +68,28 @@ theorem take_all_blocks (b : Nat) (hb : 0 < b) (f : Bytes) : f.take (nblocks b f
 
 /-! ### fill loop -/
 
+theorem fillLoop_len (b n : Nat) (es : List Bytes) (rest : Bytes) :
+    (fillLoop b n es rest).1.length ≤ es.length + n := by
+  induction n generalizing es rest with
+  | zero => simp [fillLoop]
+  | succ n ih =>
+    simp only [fillLoop]
+    split
+    · simp
+    · have := ih (es ++ [rest.take b]) (rest.drop b)
+      simp at this ⊢; omega
+
+theorem fillLoop_mono (b n : Nat) (es : List Bytes) (rest : Bytes) :
+    es.length ≤ (fillLoop b n es rest).1.length := by
+  induction n generalizing es rest with
+  | zero => simp [fillLoop]
+  | succ n ih =>
+    simp only [fillLoop]
+    split
+    · simp
+    · have := ih (es ++ [rest.take b]) (rest.drop b)
+      simp at this ⊢; omega
+
 theorem fillLoop_content (b : Nat) (f : Bytes) (abs n : Nat) (es : List Bytes) (rest : Bytes)
     (hes : ∀ i, i < es.length → es[i]? = some (slice b f (abs + i)))
     (hrest : rest = f.drop ((abs + es.length) * b)) :
@@ -212,7 +234,9 @@ theorem head_good {c : SCfg} (hb : 0 < c.b) {f : Bytes} {s : SState} (h : SInv c
 theorem fill_ok {c : SCfg} (hb : 0 < c.b) (hw : c.w < 65536) {f : Bytes} {s : SState} (h : SInv c f s) :
     ∃ w' fl, s.win.fill = (w', .ok fl) ∧
       SInv c f { s with win := w', filled := fl, retry := 0, since := c.timeout + Gen.timeoutBufferMs } ∧
-      s.win.elems.length ≤ w'.elems.length := by
+      s.win.elems.length ≤ w'.elems.length ∧
+      (w'.eof = false → w'.elems.length = c.w) ∧
+      (s.win.eof = false → s.win.elems.length < c.w → s.win.elems.length < w'.elems.length) := by
   have hlen : s.win.len = s.win.elems.length := by
     unfold Window.len
     have := h.len_le
@@ -221,14 +245,14 @@ theorem fill_ok {c : SCfg} (hb : 0 < c.b) (hw : c.w < 65536) {f : Bytes} {s : SS
   unfold Window.fill
   cases heof : s.win.eof with
   | true =>
-    refine ⟨s.win, false, by simp, ?_, Nat.le_refl _⟩
+    refine ⟨s.win, false, by simp, ?_, Nat.le_refl _, by simp [heof], by simp [heof]⟩
     exact ⟨h.base_pos, h.bn_eq, h.elems_eq, h.cur, h.fin, h.len_le, h.size_eq, h.chunk_eq, h.can_read,
       by simp [heof], fun _ => hmr⟩
   | false =>
     simp only [Bool.false_eq_true, ↓reduceIte, hlen, h.size_eq]
     by_cases hn : c.w - s.win.elems.length = 0
     · simp only [hn, ↓reduceIte]
-      refine ⟨s.win, true, rfl, ?_, Nat.le_refl _⟩
+      refine ⟨s.win, true, rfl, ?_, Nat.le_refl _, fun _ => by have := h.len_le; omega, fun _ hlt => by omega⟩
       exact ⟨h.base_pos, h.bn_eq, h.elems_eq, h.cur, h.fin, h.len_le, h.size_eq, h.chunk_eq, h.can_read,
         by simp [heof], fun _ => hmr⟩
     · simp only [hn, ↓reduceIte, h.can_read, Bool.not_true, Bool.false_eq_true, h.chunk_eq]
@@ -238,7 +262,25 @@ theorem fill_ok {c : SCfg} (hb : 0 < c.b) (hw : c.w < 65536) {f : Bytes} {s : SS
       have cont := fillLoop_content c.b f (s.base - 1) (c.w - s.win.elems.length) s.win.elems
         s.win.file.rest h.elems_eq hrest
       obtain ⟨s1, s2, s3, s4⟩ := spec
-      refine ⟨_, _, rfl, ?_, s1⟩
+      have hgrow : s.win.elems.length <
+          (fillLoop c.b (c.w - s.win.elems.length) s.win.elems s.win.file.rest).1.length := by
+        obtain ⟨m, hm⟩ : ∃ m, c.w - s.win.elems.length = m + 1 := ⟨c.w - s.win.elems.length - 1, by omega⟩
+        rw [hm]
+        simp only [fillLoop]
+        split
+        · simp
+        · have hcur' : (s.base - 1 + (s.win.elems ++ [s.win.file.rest.take c.b]).length) * c.b ≤ f.length ∨ True := Or.inr trivial
+          have := fillLoop_len c.b m (s.win.elems ++ [s.win.file.rest.take c.b]) (s.win.file.rest.drop c.b)
+          have h2 := fillLoop_mono c.b m (s.win.elems ++ [s.win.file.rest.take c.b]) (s.win.file.rest.drop c.b)
+          simp at h2 ⊢
+          omega
+      have hfresh : (fillLoop c.b (c.w - s.win.elems.length) s.win.elems s.win.file.rest).2.2 = true →
+          (fillLoop c.b (c.w - s.win.elems.length) s.win.elems s.win.file.rest).1.length = c.w := by
+        intro he
+        have := (s3 he).1
+        have hl := h.len_le
+        omega
+      refine ⟨_, _, rfl, ?_, s1, by intro he; simp at he; exact hfresh he, fun _ _ => hgrow⟩
       refine ⟨h.base_pos, h.bn_eq, cont, ?_, ?_, ?_, by first | exact h.size_eq | rfl,
         by first | exact h.chunk_eq | rfl, by first | exact h.can_read | rfl, by simp, fun _ => hmr⟩
       · intro he
@@ -255,7 +297,7 @@ theorem fill_ok {c : SCfg} (hb : 0 < c.b) (hw : c.w < 65536) {f : Bytes} {s : SS
 theorem outer_good {c : SCfg} (hb : 0 < c.b) (hw : c.w < 65536) {f : Bytes} {s : SState} (h : SInv c f s) :
     SInv c f (sOuter c s).1 ∧ (sOuter c s).1.base = s.base ∧ (sOuter c s).1.status = s.status ∧
       ∀ p ∈ (sOuter c s).2, GoodData c f s.base p := by
-  obtain ⟨w', fl, hfill, hinv, _⟩ := fill_ok hb hw h
+  obtain ⟨w', fl, hfill, hinv, _, _, _⟩ := fill_ok hb hw h
   unfold sOuter
   rw [hfill]
   exact head_good hb hinv
